@@ -47,11 +47,16 @@ type KMS struct {
 	Latency  func(op string) time.Duration
 	Retained [][]byte // every slice returned by DecryptKey, kept to check that the SDK wipes it
 	counts   map[string]int
+	// Cancels: call index -> the caller's context is cancelled (through OnCancel) while that call is in flight; the
+	// call itself then completes normally. Cancelled counts how many fired.
+	Cancels   map[int]bool
+	OnCancel  func()
+	Cancelled int
 }
 
 // NewKMS wraps inner.
 func NewKMS(inner appencryption.KeyManagementService) *KMS {
-	return &KMS{Inner: inner, Faults: map[int]bool{}, Delays: map[int]time.Duration{}, counts: map[string]int{}}
+	return &KMS{Inner: inner, Faults: map[int]bool{}, Delays: map[int]time.Duration{}, counts: map[string]int{}, Cancels: map[int]bool{}}
 }
 
 func (k *KMS) begin(op string) (int, bool) {
@@ -60,7 +65,14 @@ func (k *KMS) begin(op string) (int, bool) {
 	k.n++
 	k.counts[op]++
 	f, d, lat := k.Faults[i], k.Delays[i], k.Latency
+	cancel := k.Cancels[i] && k.OnCancel != nil
+	if cancel {
+		k.Cancelled++
+	}
 	k.mu.Unlock()
+	if cancel {
+		k.OnCancel()
+	}
 	if lat != nil && d == 0 {
 		d = lat(op)
 	}
